@@ -8,11 +8,11 @@ from props import c03_util as U
 
 PROP = "C03"
 LEVEL = "proof"
-GEN_UNITS = ["GenUtils"]
-COQ_TARGETS = ["Props/C03.vo", "Props/C03Src.vo", "Model/Harness.vo", "Model/C03Chk.vo"]
-THEOREM_FILES = ["Props/C03.v", "Props/C03Src.v"]
+GEN_UNITS = ["GenUtils", "GenUtils2"]   # GenUtils2: tt_union_rows (S != T)
+COQ_TARGETS = ["Props/C03.vo", "Props/C03Src.vo", "Props/C03Gen2.vo", "Model/Harness.vo", "Model/C03Chk.vo", "Model/C03Chk2.vo"]
+THEOREM_FILES = ["Props/C03.v", "Props/C03Src.v", "Props/C03Gen2.v"]
 COQ_IMPORTS = ("From Coq Require Import List ZArith Bool QArith Qcanon.\n"
-               "From PV Require Import Base.Index Np.Array Model.Sparse Model.Repr Model.Harness Model.C03Ops Model.C03Chk.\n"
+               "From PV Require Import Base.Index Np.Array Model.Sparse Model.Repr Model.Harness Model.C03Ops Model.C03Chk Model.C03Chk2.\n"
                # case indices >= 5000 are nat literals that make coqc print one warning each; the driver reads the pipe only
                # after the process ends, so the warnings must be silenced or the shard blocks on a full pipe
                'Set Warnings "-abstract-large-number".\n')
@@ -25,7 +25,9 @@ RULE = ("every binary operator (+ - * / and or xor == != < <= > >=) x right-hand
         "then:<op1>:<op2> = (A op1 R1) op2 R2 on the same Python objects, R2 in {scalar, A, R1, none}, both raw results observed; "
         "memory layouts {F, C, strided view} of subs / vals / dense data; magnitudes 2^10, 2^24 with last-unit neighbours; every sparse "
         "result must be fully well-formed (no duplicate, no explicit zero, nnz = rows = values, integer subs dtype, full() works) and "
-        "the operands must be unchanged after the call")
+        "the operands must be unchanged after the call. Wave 3b: every sparse / sparse, S != S2, S == T, S != T request is run a second time "
+        "as <op>model: pyttb's raw lists, STORED ORDER INCLUDED, must equal the lists the transliteration over the generated helpers "
+        "returns (Model/C03Gen.v impl_div_sparse_gen, Model/C03Gen2.v); the witnesses of the repaired findings are regression cases")
 CORRESPONDENCE_ONLY = []   # filled below
 EXPLANATION = ("pyttb's raw result (sparse: shape/subs/vals lists; dense: F-order data) is compared in Coq against the executable "
                "element-wise specification spec_ew / spec_div (Model/C03Ops.v; two-step histories: spec_then, Model/C03Chk.v) evaluated on "
@@ -35,6 +37,9 @@ EXPLANATION = ("pyttb's raw result (sparse: shape/subs/vals lists; dense: F-orde
                "/ scalar 0) are transliterated over tt_intersect_rows / tt_setdiff_rows / tt_ismember_rows as REGENERATED from "
                "pyttb_utils.py on every run; their index contracts on duplicate-free rows are theorems (C03_rows_*), so a change of a "
                "helper breaks the proof and the correspondence (operands in reversed/random stored order) finds the failing input. "
+               "Wave 3b: sparse / sparse (repaired code, open finding C03-N7), S != S2 (tt_intersect_rows + boolean scatter), S == T (extract "
+               "= tt_ismember_rows + mask assignment) and S != T (GenUtils2.tt_union_rows + tt_setdiff_rows) are transliterated as written and "
+               "tied to pyttb list for list (<op>model cases), so a change INSIDE the class of an open finding is reported too. "
                "Finite clause of the property text: quick = ALL 4^cells zero-pattern pairs x EVERY binary operator x {sparse, dense} "
                "right-hand side for every shape of <= 4 cells used ((2,2), (3,), (2,1)); thorough adds all pattern pairs of (2,3) "
                "(6 cells, 3 operators per pair, rotating) and (2,2,2) (8 cells, 1 operator per pair, rotating): every pair of patterns up "
@@ -110,6 +115,10 @@ def gen_cases(rng, tier):
 
     def add(op, a):
         cases.append(Case(op, a, nontrivial(a)))
+        # tie of the transliterations over the generated helpers: the same request once more, pyttb's raw lists compared
+        # list for list (stored order included) with what the transliterated algorithm returns (MODEL_OPS)
+        if (op, a.get("rk")) in MODEL_OPS and "r2" not in a:
+            cases.append(Case(op + "model", dict(a), nontrivial(a)))
 
     # 1. exhaustive zero-pattern pairs, sparse and dense right-hand sides
     for shape in [(2, 2), (3,), (2, 1)]:
@@ -234,9 +243,14 @@ def gen_cases(rng, tier):
                 a = binary_args(shape, pa, pb, rk, rng, c=rng.choice((-1, 1)) * (sc + rng.choice((0, 1))))
                 big_values(a, rng, sc)
                 add(op, a)
+    # 9. the witnesses of the repaired findings, as ordinary regression cases
+    for op, a in REGRESSION:
+        add(op, {k: (list(v) if isinstance(v, list) else v) for k, v in a.items()})
     return cases
 
 
+# (operator, right-hand side kind) whose transliteration over the generated helpers is tied list for list
+MODEL_OPS = {("div", "sparse"), ("ne", "sparse"), ("eq", "dense"), ("ne", "dense")}
 IDENT_MODES = ("cancel_all", "cancel_some", "equal", "mixed")
 LAYOUTS = ("F", "C", "view")
 # first steps whose result is sparse, by kind of right-hand side
@@ -299,8 +313,12 @@ def big_values(a, rng, sc):
 # ---------------------------------------------------------------------------------------------
 # pyttb side
 # ---------------------------------------------------------------------------------------------
+def base_op(op):
+    return op[:-5] if op.endswith("model") else op
+
+
 def run_impl(c):
-    return U.run_history(c.op, c.args)
+    return U.run_history(base_op(c.op), c.args)
 
 
 # ---------------------------------------------------------------------------------------------
@@ -370,6 +388,21 @@ def first_spec(op, a):
     raise ValueError(op)
 
 
+def model_expr(op, a, o):
+    """Gallina bool: pyttb's raw lists ARE the lists the transliteration over the generated helpers returns"""
+    if "exc" in o or o.get("kind") != "sparse" or not raw_ok(o):
+        return "false"
+    A = U.gsp(a)
+    if op == "div":
+        return f"div_model_ok {gobs_sparse_x(o)} {A} {U.gsp(a, 'bsubs', 'bvals')}"
+    if not tgen.all_int(o["vals"]):
+        return "false"
+    if a["rk"] == "sparse":
+        return f"{op}_sparse_model_ok {gobs_sparse_z(o)} {A} {U.gsp(a, 'bsubs', 'bvals')}"
+    return f"{op}_dense_model_ok {gobs_sparse_z(o)} {A} {tgen.gdense(a['shape'], a['bd'])}"
+    raise ValueError(op)
+
+
 def coq_check(c, o):
     a = c.args
     if "exc" in o or o.get("kind") != "steps" or not o.get("intact", False):
@@ -377,6 +410,8 @@ def coq_check(c, o):
     ops = c.op.split(":")[1:] if c.op.startswith("then:") else [c.op]
     if len(o["steps"]) != len(ops):
         return "false"
+    if c.op.endswith("model"):
+        return model_expr(base_op(c.op), a, o["steps"][0])
     z1, x1 = first_spec(ops[0], a)
     e = step_expr(o["steps"][0], z1, x1)
     if len(ops) == 1:
@@ -395,7 +430,9 @@ def coq_check(c, o):
 # brute-force oracle (pure Python loops; shares nothing with pyttb or with the Coq model)
 # ---------------------------------------------------------------------------------------------
 def oracle(c, o):
-    return U.judge_steps(o, c.op, c.args, zeros_ok=False)
+    if c.op == "divmodel":
+        return U.judge_div_asis(o, c.args)
+    return U.judge_steps(o, base_op(c.op), c.args, zeros_ok=False)
 
 
 # ---------------------------------------------------------------------------------------------
@@ -418,12 +455,6 @@ def _div_sparse_supports_differ(c):
     return p is not None and p[0] != p[1]
 
 
-def _div_sparse_misaligned(c):
-    """A-07 (index misuse): same support, common subscripts stored in different relative orders"""
-    p = _div_sparse(c)
-    return p is not None and p[0] == p[1] and not U.common_aligned(c.args)
-
-
 def _div_dense_00(c):
     a = c.args
     if c.op != "div" or _rk(c) != "dense":
@@ -433,9 +464,9 @@ def _div_dense_00(c):
 
 
 TRIGGERS = {
-    # only the OPEN findings keep a trigger (A-07 / C03-N7 sparse/sparse division, C03-N5 sparse/dense division at common zeros)
+    # only the OPEN findings keep a trigger (C03-N7 sparse/sparse division with differing supports, C03-N5 sparse/dense
+    # division at common zeros); A-07 is repaired (e2beb21): its witness is a regression case (REGRESSION)
     "div_sparse_supports_differ": _div_sparse_supports_differ,
-    "div_sparse_same_support_misaligned": _div_sparse_misaligned,
     "div_dense_common_zero": _div_dense_00,
 }
 
@@ -449,22 +480,35 @@ def _witness(op, args):
 
 W22 = {"shape": [2, 2]}
 WITNESS_INPUTS = {
-    "A-07": ("div", dict(W22, subs=[[1, 1], [0, 0]], vals=[3, 2], rk="sparse", bsubs=[[0, 0], [1, 1]], bvals=[5, 7])),
     "C03-N7": ("div", dict(W22, subs=[[1, 0]], vals=[4], rk="sparse", bsubs=[[1, 1]], bvals=[3])),
     "C03-N5": ("div", dict(W22, subs=[[1, 1], [0, 0]], vals=[3, 2], rk="dense", bd=[1, 0, 2, 3])),
 }
 WITNESSES = {k: _witness(*v) for k, v in WITNESS_INPUTS.items()}
+# witnesses of repaired findings (A-07 same support / opposite stored orders; the same on a 1-way tensor; C03-DT2 empty / empty)
+REGRESSION = [
+    ("div", dict(W22, subs=[[1, 1], [0, 0]], vals=[3, 2], rk="sparse", bsubs=[[0, 0], [1, 1]], bvals=[5, 7])),
+    ("div", dict(shape=[3], subs=[[2], [0], [1]], vals=[3, 2, -1], rk="sparse", bsubs=[[0], [1], [2]], bvals=[5, 7, 2])),
+    ("div", dict(shape=[3], subs=[], vals=[], rk="sparse", bsubs=[], bvals=[])),
+    ("mul", dict(W22, subs=[[1, 1], [0, 0]], vals=[3, 2], rk="sparse", bsubs=[[0, 0], [1, 1]], bvals=[5, 7])),
+    ("eq", dict(W22, subs=[[1, 1], [0, 0]], vals=[3, 2], rk="scalar", c=2)),
+    ("ne", dict(W22, subs=[[1, 1], [0, 0]], vals=[3, 2], rk="scalar", c=2)),
+    ("ne", dict(W22, subs=[], vals=[], rk="dense", bd=[0, 0, 0, 1])),
+    ("and", dict(W22, subs=[[0, 1], [1, 1]], vals=[3, 3], rk="dense", bd=[0, 0, 3, 0])),
+]
 
 CORRESPONDENCE_ONLY = [
-    "__truediv__ with a SPARSE right-hand side: the code as it is (open findings A-07 index misuse, C03-N7 x/0 -> NaN and stored zeros) "
-    "is transliterated over the generated helpers, refuted (C03_div_sparse_asis_refuted) and proved right only for "
-    "operands with identical stored subscript lists (C03_div_sparse_asis_partial); the correct quotient is checked against the executable "
-    "IEEE specification spec_div only",
+    "__truediv__ with a SPARSE right-hand side: the code as it is (repaired in e2beb21: finding A-07 fixed; open finding C03-N7 x/0 -> NaN "
+    "and 0/x stored as an explicit zero) is transliterated over the generated helpers and PROVED position by position "
+    "(C03_div_sparse_gen_char / _partial / _same_support / _ieee: right wherever the dividend is 0 or the divisor is nonzero, NaN where a "
+    "nonzero is divided by an implicit zero, every position stored), the full statement is refuted (C03_div_sparse_refuted), and the "
+    "transliteration is tied to pyttb list for list (op divmodel); the CORRECT quotient (+-inf at x/0, nothing stored at 0/x) is "
+    "checked against the executable IEEE specification spec_div only",
     "__truediv__ with a DENSE right-hand side at positions where both operands are 0 (open finding C03-N5: C03_div_dense_refuted / _partial)",
     "__rtruediv__ (scalar / sparse) and sparse (+ - or xor) scalar/dense: full() then the dense operator: proved generically "
     "(C03_dense_result_scalar / _dense for any element function), the dense operator itself is tensor.py's (C02)",
-    "__eq__ (dense), __ne__ (sparse, dense): hand transliterations (boolean-mask scatter selfIdx[idx] = False and tt_union_rows are not used "
-    "in generated form); proved = spec, tied by correspondence",
+    "inside __eq__ (dense) / __ne__ (dense): the order in which tensor.find() (F order) and np.where (first mode slowest) list the zero "
+    "positions of the dense operand, and the dense gather other[self.subs], are modelled by hand (den_dense, allsubs / allsubsC); the rest of "
+    "both paths is over the generated helpers and proved (Props/C03Gen2.v); tied list for list (ops eqmodel / nemodel)",
     "two-step histories (A op1 R1) op2 R2, memory layouts of the operands (F / C / strided views), operands unchanged after the call, "
     "integer dtype of the result's subscripts and full() of every sparse result: correspondence only (composition of the per-operator theorems "
     "needs the intermediate to be well-formed, which the theorems give; the Python object identity / layout is not modelled)",
